@@ -86,6 +86,7 @@ def gen(seed, tier):
         'chain_name': rng.choice(['TEZOS_MAINNET', 'SANDBOXED_TEZOS']),
         'prebake': 1,
         'watch_only': rng.random() < 0.15,
+        'filter_rpc': rng.choice(['default', 'default', 'absent', 'lowered', 'lowered', 'raised']),
     }
     if key != 'tz4' and rng.random() < 0.08:
         # boundary seeking: drive the chosen fee onto the 2-byte/3-byte boundary of the fee field (16383/16384)
@@ -141,7 +142,7 @@ def gen(seed, tier):
         via = rng.choice(['chain', 'bulk'])
         if len(specs) == 1 and specs[0]['kind'] == 'contract_call':
             via = rng.choice(['chain', 'bulk', 'call', 'call'])
-        steps.append({'op': 'new', 'g': g, 'contents': specs, 'via': via, 'sim_plan': plan})
+        steps.append({'op': 'new', 'g': g, 'contents': specs, 'via': via, 'sim_plan': plan, **({'preset_signature': True} if (via != 'call' and rng.random() < 0.08) else {})})
         kw = {}
         if path in ('send', 'autofill') and rng.random() < 0.35:
             # limits from simulation plus a caller-chosen safety reserve (the fee must follow the limit actually declared)
@@ -282,8 +283,12 @@ def simplify(scn):
                 c = cp()
                 c['steps'][i]['via'] = 'chain'
                 yield c
+            if st.get('preset_signature'):
+                c = cp()
+                del c['steps'][i]['preset_signature']
+                yield c
     cfg = scn['cfg']
-    for k, v in {'counter0': 10, 'chain_name': 'TEZOS_MAINNET', 'pending_key': 'validated', 'watch_only': False}.items():
+    for k, v in {'counter0': 10, 'chain_name': 'TEZOS_MAINNET', 'pending_key': 'validated', 'watch_only': False, 'filter_rpc': 'default'}.items():
         if cfg.get(k) != v:
             c = cp()
             c['cfg'][k] = v
